@@ -457,6 +457,13 @@ def oracle (st : St) (pre : Impl) (op : List String) (ret : String) (ows : List 
       | some n => if n != 0 then c10 := c10 ++ ["remove_exact"]
       | none => pure ()
     if !(others h) then c10 := c10 ++ ["remove_exact"]
+  | "rmpubf" :: h :: _ =>
+    -- after the faulty attempt and the retry the publisher is gone with all its objects, nothing else moved
+    if (postPub h).isSome then c10 := c10 ++ ["removal_recoverable"]
+    match cpOf ows h with
+    | some n => if n != 0 then c10 := c10 ++ ["removal_recoverable"]
+    | none => pure ()
+    if !(others h) then c10 := c10 ++ ["remove_exact"]
   | "addpub" :: h :: _ =>
     if !(others h) then c10 := c10 ++ ["isolation"]
     for p in post.pubs do
@@ -711,6 +718,20 @@ def modelStep (st : St) (op : List String) (ows : List String) : Option ModelOut
   | ["rmpub", h] =>
     let (s', r) := srv.removePublisher (parseHandle h)
     keep s' (replyStr r) (replyStr r ++ (if (srv.rrdp.objectsFor (parseHandle h)).isEmpty then "/empty" else "/objects"))
+  | ["rmpubf", h, _] =>
+    -- `remove_publisher` with one failing key-value write, then the retry: whatever write failed, the
+    -- two attempts together must have removed the publisher and its objects (`removal_recoverable`);
+    -- the observed pair of replies is accepted when it is one a recoverable removal can give
+    let (s', r) := srv.removePublisher (parseHandle h)
+    let want := replyStr r
+    match retO.splitOn "|" with
+    | [r1, r2, hit] =>
+      let good :=
+        if want == "ok" then r1 == "ok" || r2 == "ok" || (r1 != "ok" && r2 == "unknown")
+        else r2 == want && (r1 == want || hit == "hit")
+      keep s' (if good then retO else want)
+        (s!"{want}/{hit}/" ++ (if r1 == "ok" then "first" else if r2 == "ok" then "retry" else "both-steps-done"))
+    | _ => keep s' want "?"
   | ["pub", h, spec] =>
     match parseElems spec with
     | none => if retO == "badop" then keep srv "badop" "bad" else none
